@@ -40,7 +40,7 @@ SPEC = dict(
              'judged/log1p/macro', 'judged/atan2/macro', 'judged/atan2/exported', 'judged/atan2/exact-y-axis', 'judged/norm2', 'judged/norm3', 'judged/hypot',
              'judged/norm', 'judged/norm_', 'norm-no-spurious-overflow-underflow', 'judged/cart2pol', 'judged/pol2cart', 'judged/cart2sph', 'judged/sph2cart',
              'polar-round-trip', 'sphere-round-trip', 'judged/rad2deg', 'judged/deg2rad', 'judged/rsqrt', 'judged/sum', 'judged/sum_', 'judged/sum1',
-             'judged/sum2', 'judged/mean', 'judged/mean_', 'judged/dot', 'judged/dot_', 'judged/copy-swap-fill-zero', 'judged/push-roll', 'judged/block-roll',
+             'judged/sum2', 'judged/mean', 'judged/mean_', 'judged/dot', 'judged/dot_', 'judged/dot_-same-array', 'judged/dot-same-array', 'judged/copy-swap-fill-zero', 'judged/push-roll', 'judged/block-roll',
              'judged/block-roll-empty-block'],
     cov_files=['math.c'], cov_funcs=r'^a_(real|f32|f64)_', cov_cases=112, cov_timeout=300,
     timeout={'quick': 1200, 'thorough': 7200},
